@@ -50,10 +50,19 @@ def tags_of(beh):
                 t.add("ins@%s" % ("top" if pos == 0 else "bottom" if pos == len(c) - 1 else "mid"))
         elif k == "Ckpt":
             t.add("ckpt:%s" % a["kind"])
+            if a["kind"] == "human" and not a["files"]:
+                # a human checkpoint with nothing of the person's pending (the pre-edit checkpoint of an agent, or a
+                # redundant one); what follows it matters
+                partial = any(b["a"] == "Commit" and b.get("mode") in ("paths", "staged") for b in beh[:i])
+                nxt = beh[i + 1] if i + 1 < len(beh) else None
+                t.add("ckptH-clean%s>%s" % ("-after-partial" if partial else "",
+                                            (nxt["a"] + ":" + ("ai" if nxt.get("who", "H") != "H" else "h")) if nxt else "end"))
         elif k == "Commit":
             t.add("commit:%s" % a["mode"])
         elif k == "Stage":
             t.add("stage:%s" % a.get("kind"))
+        elif k == "ReadOnly":
+            t.add("readonly:%s" % a.get("cmd"))
         else:
             t.add(k)
         if k in ("Rebase", "MergeSquash"):
@@ -159,27 +168,45 @@ def tags_of(beh):
 
 
 def select(behaviours, budget, seed, per_tag=2, tagger=None):
-    """coverage first (shortest behaviours per tag vector), then a seeded uniform sample"""
+    """coverage first, then a seeded uniform sample:
+       1. every individual tag (abstract predicate) is covered by at least `per_tag` behaviours, shortest first;
+       2. then one behaviour per distinct tag VECTOR, shortest first, in seeded order;
+       3. then a seeded uniform sample of the rest."""
     rnd = random.Random(seed)
-    by_tag = {}
-    for b in behaviours:
-        by_tag.setdefault((tagger or tags_of)(b), []).append(b)
-    chosen = []
-    chosen_ids = set()
-    keys = sorted(by_tag, key=lambda k: (len(k), sorted(k)))
+    tg = tagger or tags_of
+    tagged = [(tg(b), b) for b in behaviours]
+    order = list(range(len(tagged)))
+    rnd.shuffle(order)
+    order.sort(key=lambda i: len(tagged[i][1]))
+    chosen, chosen_ids = [], set()
+    cover = {}
+    for i in order:
+        if len(chosen) >= budget:
+            break
+        tags, b = tagged[i]
+        if any(cover.get(t, 0) < per_tag for t in tags):
+            chosen.append(b)
+            chosen_ids.add(i)
+            for t in tags:
+                cover[t] = cover.get(t, 0) + 1
+    by_vec = {}
+    for i in order:
+        by_vec.setdefault(tagged[i][0], []).append(i)
+    keys = list(by_vec)
     rnd.shuffle(keys)
     for k in keys:
-        group = sorted(by_tag[k], key=lambda b: (len(b), json.dumps(b, sort_keys=True)))
-        # shortest first but seeded choice among equally short ones
-        for b in group[:per_tag]:
-            if len(chosen) >= budget:
-                break
-            chosen.append(b)
-            chosen_ids.add(id(b))
-    rest = [b for b in behaviours if id(b) not in chosen_ids]
+        if len(chosen) >= budget:
+            break
+        if any(i in chosen_ids for i in by_vec[k]):
+            continue
+        i = by_vec[k][0]
+        chosen.append(tagged[i][1])
+        chosen_ids.add(i)
+    rest = [i for i in order if i not in chosen_ids]
     rnd.shuffle(rest)
-    chosen += rest[:max(0, budget - len(chosen))]
-    return chosen, len(by_tag)
+    for i in rest[:max(0, budget - len(chosen))]:
+        chosen.append(tagged[i][1])
+    return chosen, len(by_vec)
 
 
 def _replay_one(args):
